@@ -723,7 +723,8 @@ func (s *scanner) readInlineImage() (Operator, error) {
 		s.ReadByte()
 	}
 	if isASCIIFilter(filter) {
-		if err := s.SkipWhiteSpace(); err != nil {
+		// '%' is ordinary ASCII85 data here, not the start of a comment
+		if err := s.skipWhiteSpaceExceptComments(); err != nil {
 			return Operator{}, err
 		}
 	}
